@@ -150,16 +150,17 @@ Definition P (s d : str) (n : Z) := {| p_src := s; p_dst := d; p_asset := "USD";
 Definition mk (i : input) := {| o_in := i; o_ik := ""; o_dry := false |}.
 Definition copy_of f h := let '(a, b, rs) := run_script f h [AImport 0 None 5000] in (a, b, rs).
 
-(* a transaction dated in the future (t = 100) creates bob at time 10; metadata set at time 20: the source keeps
-   first_usage = 100, the copy has 20 *)
-Theorem C11_refuted_first_usage : exists f h,
+(* a transaction dated in the future (t = 100) creates bob at time 10; metadata set at time 20.  Before the repair of
+   UpsertAccounts (a batch row without first_usage now stands for transaction_date() on update as on insertion) the source
+   kept first_usage = 100 while the copy had 20 (former witness C11_refuted_first_usage); now both have 20 *)
+Example C11_first_usage_example : exists f h,
   let '(a, b, rs) := copy_of f h in
-  (exists b0, rs = [RImport None b0]) /\ map a_first (s_accounts (i_s a)) <> map a_first (s_accounts (i_s b)).
+  (exists b0, rs = [RImport None b0]) /\ map a_first (s_accounts (i_s a)) = [100; 20] /\ map a_first (s_accounts (i_s b)) = [100; 20].
 Proof.
   exists fall, [(10, mk (ICreate [P "world" "bob" 5] (Some 100) "" [] [] false)); (20, mk (ISetMeta (TAcc "bob") [("k", "v")]))].
-  vm_compute. split; [eexists; reflexivity | intros E; discriminate].
+  vm_compute. split; [eexists; reflexivity | split; reflexivity].
 Qed.
-Print Assumptions C11_refuted_first_usage.
+Print Assumptions C11_first_usage_example.
 
 (* account metadata deleted at time 20, import at time 5000: updated_at and the history revision are dated 5000 in the copy *)
 Theorem C11_refuted_updated_at : exists f h,
